@@ -35,6 +35,7 @@ DstInputs(c, xs, xd, cats) ==
   \cup (IF "mdwrej" \in cats THEN { [k |-> "fsm", a |-> DMd(c, h), w |-> TRUE] } ELSE {})   \* create / truncate refused
   \cup (IF "eof" \in cats THEN {Fsm(DEof(c, h, "NO_ERROR", n, TRUE))} ELSE {})
   \cup (IF "eofodd" \in cats THEN {Fsm(DEof(c, h, "NO_ERROR", n, FALSE)), Fsm(DEof(c, h, "NO_ERROR", IF n > 0 THEN n - 1 ELSE 1, TRUE))} ELSE {})
+  \cup (IF "eofbad" \in cats THEN {Fsm(DEof(c, h, "NO_ERROR", n, FALSE))} ELSE {})      \* right size, wrong checksum
   \cup (IF "eofcancel" \in cats THEN {Fsm(DEof(c, h, "CANCEL_REQUEST_RECEIVED", IF n > 1 THEN n - 1 ELSE n, TRUE))} ELSE {})
   \cup (IF "ack" \in cats THEN {Fsm(DAck(h, "FIN"))} ELSE {})
   \cup (IF "poll" \in cats THEN {Fsm(None)} ELSE {})
